@@ -229,6 +229,7 @@ pub fn run_history(scn: &HrScn, f: &ValidFile, dbf: &[u8], ctx: &mut Ctx) {
                 return;
             }
         };
+        ctx.stats.reach(&history_site(&scn.ops, oi));
         let site = format!("{}:{}", history_site(&scn.ops, oi), match scn.kind { RKind::ShpIndex => "index", RKind::ShpNoIndex => "noindex", RKind::Full => "full" });
         match (op, obs) {
             (ROp::Count, Obs::Count(c)) => {
